@@ -52,15 +52,56 @@ func main() {
 	}
 }
 
-// classify refines the signature of failures that need a run-time
-// ResetLocalState (what auto-recover does) before the failing operation: that
-// pattern is the recorded finding F3 (KNOWN_FINDINGS.json); any other failure
-// keeps its generic signature and is reported as a violation.
+// classify refines the signature of one recorded finding (KNOWN_FINDINGS.json); any other
+// failure keeps its generic signature and is reported as a violation.
+//
+// rollback-same-generation-identical-last-frame: while litestream was down the database file
+// AND its WAL were rolled back to an earlier raw copy of the same WAL generation and a different
+// history was written past the rollback point, such that the frame just before litestream's
+// replicated position is byte-identical (same page number, same content, same salts) in both
+// histories. verify's continuity test looks at that one frame only (lastPageMatch), so it
+// continues incrementally and the frames rewritten between the rollback point and the position
+// never reach the replica. The classification requires the facts, gathered independently from
+// the files, to say exactly that: salts equal, position inside the WAL, the frame before the
+// position present in the last L0 file, and the real decision "incremental at the position".
+// (F3, the run-time reset of local state, was repaired in /repo by c352567 and is no longer classified.)
 func classify(h histlib.History, at int, f *histlib.Fail) {
+	rolled := false
 	for i, op := range h.Ops {
-		if i < at && op.K == "autorecover" {
-			f.Sig = "runtime-reset-local-state-restarts-below-replica"
-			return
+		if i < at && op.K == "rollbackfiles" {
+			rolled = true
 		}
 	}
+	if !rolled || f.Verify == nil || !lastFrameCoincides(f.Verify) {
+		return
+	}
+	if f.Sig == "ack-restore-differs" || f.Sig == "ack-restore-fails" {
+		f.Sig = "rollback-same-generation-identical-last-frame"
+	}
+}
+
+func lastFrameCoincides(v *histlib.VerifyObs) bool {
+	kv := map[string]string{}
+	for _, t := range strings.Fields(v.Line) {
+		if i := strings.IndexByte(t, '='); i > 0 {
+			kv[t[:i]] = t[i+1:]
+		}
+	}
+	var le int
+	fmt.Sscanf(kv["LE"], "%d", &le)
+	frames := strings.Split(kv["F"], ",")
+	if kv["POS0"] != "0" || kv["LS"] != kv["HS"] || le < 2 || le > len(frames) {
+		return false
+	}
+	fr := strings.SplitN(frames[le-1], ":", 2) // salt:pgno:tok
+	if len(fr) != 2 || fr[0] != kv["LS"] {
+		return false
+	}
+	found := false
+	for _, p := range strings.Split(kv["LP"], ",") {
+		if p == fr[1] {
+			found = true
+		}
+	}
+	return found && strings.HasPrefix(v.Real, fmt.Sprintf("snap=0 idx=%d ", le))
 }
